@@ -6,12 +6,14 @@ import Lemmas.NumRun
 import Lemmas.NumCheck
 import Lemmas.NumRunEq
 /-! C12 — no script, variable map or ledger state can crash the engine.
-Stage 1: at the level of `Spec` (the source-level interpreter the compiler+VM are differentially tied to).
-`Spec.run` is a total Lean function — every recursion in it (`evalSource`/`evalSources`,
-`evalDest`/`evalKD`/`evalCaps`/`evalAllot`, `evalStmts`, `resolveVars`) was accepted by Lean's structural
-termination checker, so termination for every program, variable map and store is part of what the kernel
-checked — and its outcome type has no "crash" alternative.  The bytecode-level `vm_never_panics` (typed stacks,
-explicit panic outcomes) is the planned stage 2 (DESIGN §5 C12). -/
+Stage 1: at the level of `Spec` (the source-level interpreter).  `Spec.run` is a total Lean function — every
+recursion in it (`evalSource`/`evalSources`, `evalDest`/`evalKD`/`evalCaps`/`evalAllot`, `evalStmts`, `resolveVars`)
+was accepted by Lean's structural termination checker, so termination for every program, variable map and store is
+part of what the kernel checked — and its outcome type has no "crash" alternative.
+Stage 2: the bytecode level (model A2: compiler and stack VM with every Go panic site as an explicit outcome):
+`vm_terminates`, `compile_never_panics`, `resolve_never_panics` and **`vm_never_panics`** — for every compiled program
+of the whole language, every variable map and every store, no panic outcome is reachable (a corollary of
+`C08.compile_correct`).  The models are tied to the Go compiler and VM by the differentials of `checks/c12.py`. -/
 namespace C12
 open Num
 
